@@ -643,6 +643,9 @@ func c07driver(ctx *verifhlib.Ctx) {
 		op(c07ListMd, 0, 0), {kind: c07WriteAtMd, key: 0, sfx: 1, off: 1, data: []byte("ZZZ")}, {kind: c07WriteAtMd, key: 0, sfx: 3, off: 0, data: []byte("q")},
 		mc(0), {kind: c07GetMd, key: 0, sfx: 1}, {kind: c07GetMd, key: 0, sfx: 2}, op(c07ListMd, 0, 1), {kind: c07SetMd, key: 0, sfx: 2, data: []byte("i2")},
 		{kind: c07GetMd, key: 0, sfx: 2, scope: 1}, {kind: c07DelMd, key: 0, sfx: 1}, {kind: c07DelMd, key: 0, sfx: 1}, {kind: c07GetMd, key: 0, sfx: 1}, {kind: c07GetMd, key: 0, sfx: 1, scope: 2}}, "seed-metadata")
+	// past failure of the MODEL (thorough run, case 32909): a zero-length WriteAtMetadata beyond the end does not extend the file
+	emit(std, []c07op{cw(0, 10, ""), {kind: c07SetMd, key: 0, sfx: 1, data: []byte{163}}, {kind: c07WriteAtMd, key: 0, sfx: 1, off: 4, data: nil},
+		{kind: c07GetMd, key: 0, sfx: 1}, {kind: c07WriteAtMd, key: 0, sfx: 1, off: 3, data: []byte{7}}, {kind: c07GetMd, key: 0, sfx: 1}}, "seed-zero-length-writeat-metadata")
 	// Clean: LRU first, then incomplete, then (only if asked) banned; bad percentages
 	emit(std, []c07op{cw(0, 20, ""), cw(1, 20, ""), cw(2, 20, ""), cw(3, 20, ""), mc(0), mc(1), op(c07Ban, 1, 0), op(c07Ban, 3, 0),
 		{kind: c07Clean, pct: 100}, {kind: c07Clean, pct: -1}, {kind: c07Clean, pct: 70, respect: true}, {kind: c07Clean, pct: 50, respect: true},
